@@ -125,6 +125,22 @@ def render(tree, sep, style='compact'):
     raise ValueError(style)
 
 
+def padding_ok(sep):
+    """space-padded joining is meaningful for this triple: there is a separator to pad, and the space is either
+    no separator at all or the separator of the lowest defined level (a space that separates syllables or words
+    cannot also pad the levels below it)"""
+    defined = [x for x in sep if x]
+    return bool(defined) and (' ' not in defined or defined[0] == ' ')
+
+
+def padded_styles(sep):
+    """the space-padded styles of render() applicable to the triple (fullpad puts spaces between phones: it needs
+    a phone separator)"""
+    if not padding_ok(sep):
+        return []
+    return ['padded', 'joined-padded'] + (['fullpad'] if sep[0] and sep[0] != ' ' else [])
+
+
 def phones_of(tree, sep):
     """the flat phone-level tokens the separator can distinguish"""
     p, s, w = sep
